@@ -90,6 +90,7 @@ def run_tlc(
         f"-Xmx{heap}",
         "-Xss64m",
         "-Dtlc2.TLC.ide=vf",
+        f"-Djava.io.tmpdir={meta}",     # (TLC unpacks its standard modules into a temporary directory: keep it in the scratch dir)
         *jvm,
         "-cp",
         f"{JAR}:{DEPS}",
